@@ -63,41 +63,49 @@ def flatten_hyps(pc):
     return out
 
 
-def has_quant(e, cache=None):
-    cache = {} if cache is None else cache
-    stack = [e]
-    seen = set()
+_HQ, _NL = {}, {}  # per-process memo tables keyed by (ast id, ast hash): hypotheses share huge sub-DAGs (heap read chains)
+
+
+def _key(x):
+    return (x.get_id(), x.hash())
+
+
+def _memo(e, table, local):
+    """bottom-up evaluation of a boolean attribute of a term DAG with a process-wide memo table; local(x, child_values) -> bool"""
+    k0 = _key(e)
+    if k0 in table:
+        return table[k0]
+    stack = [(e, False)]
     while stack:
-        x = stack.pop()
-        i = x.get_id()
-        if i in seen:
+        x, done = stack.pop()
+        k = _key(x)
+        if k in table:
             continue
-        seen.add(i)
-        if z3.is_quantifier(x):
-            return True
-        stack.extend(x.children())
+        kids = [x.body()] if z3.is_quantifier(x) else x.children()
+        if not done:
+            stack.append((x, True))
+            for c in kids:
+                if _key(c) not in table:
+                    stack.append((c, False))
+        else:
+            table[k] = local(x, [table[_key(c)] for c in kids])
+    return table[k0]
+
+
+def has_quant(e, cache=None):
+    return _memo(e, _HQ, lambda x, kids: z3.is_quantifier(x) or any(kids))
+
+
+def _nl_local(x, kids):
+    if any(kids):
+        return True
+    if z3.is_app(x) and x.decl().kind() in (z3.Z3_OP_MUL, z3.Z3_OP_DIV, z3.Z3_OP_IDIV, z3.Z3_OP_MOD, z3.Z3_OP_REM):
+        return sum(0 if z3.is_int_value(c) or z3.is_rational_value(c) else 1 for c in x.children()) > 1
     return False
 
 
 def nonlinear(e):
-    stack = [e]
-    seen = set()
-    while stack:
-        x = stack.pop()
-        i = x.get_id()
-        if i in seen:
-            continue
-        seen.add(i)
-        if z3.is_quantifier(x):
-            stack.append(x.body())
-            continue
-        if z3.is_app(x):
-            d = x.decl().kind()
-            if d in (z3.Z3_OP_MUL, z3.Z3_OP_DIV, z3.Z3_OP_IDIV, z3.Z3_OP_MOD, z3.Z3_OP_REM):
-                if sum(0 if z3.is_int_value(c) or z3.is_rational_value(c) else 1 for c in x.children()) > 1:
-                    return True
-            stack.extend(x.children())
-    return False
+    return _memo(e, _NL, _nl_local)
 
 
 def collect_terms(fs, pred):
